@@ -56,8 +56,10 @@ class Run:
     """One history executed on the real InotifyObserver."""
 
     def __init__(self, *, recursive=True, full=False, path_kind="str", init_tree=None, event_filter=None,
-                 drop_noise=True):
+                 drop_noise=True, root_spelling="abs"):
         self.sc = gated.scratch()
+        self.root_spelling = root_spelling
+        self._cwd = None
         self.rootp = os.path.join(self.sc, "R")
         self.outp = os.path.join(self.sc, "O")
         os.makedirs(self.rootp)
@@ -70,7 +72,15 @@ class Run:
                 open(p, "w").close()
         self.recursive, self.full, self.path_kind = recursive, full, path_kind
         self.init_fs = self.listing()
-        self.g = gated.GatedObserver(self.rootp, recursive=recursive, full=full, path_kind=path_kind,
+        spelled = self.rootp
+        if root_spelling == "rel":
+            self._cwd = os.getcwd()
+            os.chdir(self.sc)
+            spelled = "R"
+        elif root_spelling == "trail":
+            spelled = self.rootp + "/"
+        self.spelled_root = spelled
+        self.g = gated.GatedObserver(spelled, recursive=recursive, full=full, path_kind=path_kind,
                                      event_filter=event_filter, drop_noise=drop_noise)
         self.mirror = []         # (object, put clock units, delayed)
         self.log = []            # executed actions with observations: dicts
@@ -233,6 +243,8 @@ class Run:
             ok = self.g.stop()
         finally:
             delayed_queue.DelayedQueue.put, delayed_queue.DelayedQueue.remove = self._saved
+            if self._cwd:
+                os.chdir(self._cwd)
             shutil.rmtree(self.sc, ignore_errors=True)
         return ok
 
@@ -438,10 +450,12 @@ def gen_history(rng, n_ops=8, depth=3, paced=True, burst_prob=0.5, outside=True,
             continue
         hist.append(["op", kind, list(p)] + ([list(q)] if q else []))
         if kind == "rename" and is_dir_entry:
-            if p[0] == "R" and q[0] == "O":
-                left.add(q)
-            if q[0] == "R":
-                left.discard(p)
+            if q[0] == "O":
+                # directories that left the tree keep that status under their new outside name
+                left = {(q + l[len(p):]) if l[:len(p)] == p else l for l in left}
+                if p[0] == "R":
+                    left.add(q)
+            else:
                 left = {l for l in left if l[:len(p)] != p}
         if isdirop:
             hot.update(paths)
